@@ -67,6 +67,11 @@ fn base_plans(tier: Tier) -> Vec<Plan> {
     v.push(plain(mem2(), Order::Asc, a4.clone()));
     v.push(plain(Cfg::Ov(vec![Cfg::Mem]), Order::Asc, a4.clone()));
     v.push(plain(phys2(), Order::Asc, alphabet(u3(), &W1, 1, true)));
+    // a chain three components deep: lookups below a *file* (ENOTDIR on a physical backend)
+    let chain = Universe::new("U_chain3{a,a/a,a/a/a}", &["/a", "/a/a", "/a/a/a"]);
+    v.push(plain(Cfg::Phys, Order::Asc, alphabet(chain.clone(), &W1, 1, true)));
+    v.push(plain(Cfg::alt(Cfg::Phys, "/Z"), Order::Asc, alphabet(chain.clone(), &W1, 1, true)));
+    v.push(plain(Cfg::Mem, Order::Asc, alphabet(chain.clone(), &W1, 1, true)));
     v.push(plain(Cfg::Mem, Order::Asc, names_prim.clone()));
     v.push(plain(Cfg::Phys, Order::Asc, names_prim.clone()));
     v.push(plain(mem2(), Order::Desc, alphabet(u_names_small(), &W1, 1, false)));
